@@ -44,6 +44,50 @@ fn setup(outer: &Path, token: &str) {
     sl("../../sibling", "d/up");
 }
 
+/// A second thread of the serving process that keeps opening and closing a file *outside* the export, as
+/// any multi-threaded server opens descriptors all the time. If the filesystem ever names an object through a
+/// descriptor number it has already closed (`/proc/self/fd/N`), the number is likely to belong to this file.
+struct Churner {
+    stop: Arc<std::sync::atomic::AtomicBool>,
+    th: Option<std::thread::JoinHandle<u64>>,
+}
+
+impl Churner {
+    fn start(outer: &Path, token: &str) -> Churner {
+        let target = outer.join("churn-target");
+        write_file(&target, token.as_bytes(), 0o666);
+        let c = std::ffi::CString::new(target.to_str().unwrap()).unwrap();
+        let n = std::ffi::CString::new("user.c06secret").unwrap();
+        let rc = unsafe { libc::setxattr(c.as_ptr(), n.as_ptr(), token.as_ptr() as *const _, token.len(), 0) };
+        assert_eq!(rc, 0, "setxattr on the churn target");
+        let stop = Arc::new(std::sync::atomic::AtomicBool::new(false));
+        let s2 = stop.clone();
+        let th = std::thread::spawn(move || {
+            let mut n = 0u64;
+            while !s2.load(std::sync::atomic::Ordering::Relaxed) {
+                let fd = unsafe { libc::open(c.as_ptr(), libc::O_RDONLY | libc::O_CLOEXEC) };
+                if fd >= 0 {
+                    std::hint::spin_loop();
+                    unsafe { libc::close(fd) };
+                }
+                n += 1;
+            }
+            n
+        });
+        Churner { stop, th: Some(th) }
+    }
+    fn finish(&mut self) -> u64 {
+        self.stop.store(true, std::sync::atomic::Ordering::Relaxed);
+        self.th.take().map(|t| t.join().unwrap_or(0)).unwrap_or(0)
+    }
+}
+
+impl Drop for Churner {
+    fn drop(&mut self) {
+        self.finish();
+    }
+}
+
 /// everything under `outer` except the export subtree
 fn sentinel(outer: &Path) -> BTreeMap<String, Node> {
     let mut s = snapshot(outer);
@@ -231,8 +275,13 @@ fn step<F: FileSystem + Sync>(w: &mut World<F>, r: &mut Rng, forbidden: &BTreeSe
             opname = "xattr";
             let a = w.conn.setxattr(ino, b"user.c06", b"v", 0).err();
             let b = w.conn.getxattr(ino, b"user.c06", 64).err();
-            let c = w.conn.removexattr(ino, b"user.c06").err();
+            // an attribute only the churned file outside the export carries (see `Churner`)
+            let secret = w.conn.getxattr(ino, b"user.c06secret", 64);
+            let c = if r.chance(3, 4) { w.conn.removexattr(ino, b"user.c06").err() } else { None };
             w.trace.push(format!("xattr set/get/remove({:#x}) -> {:?} {:?} {:?}", ino, a, b, c));
+            if let Ok(Ok(v)) = &secret {
+                return Err((format!("C06:{}:outside-data:xattr", front), format!("GETXATTR on inode {:#x} returned an attribute value ({:?}) that only a file outside the export carries", ino, String::from_utf8_lossy(v))));
+            }
             return Ok((false, a, opname));
         }
         16 => {
@@ -335,6 +384,7 @@ pub fn run(args: &Args, rep: &mut Report) {
         let outer = sc.sub("outer");
         let token = format!("TOKEN-{:016x}", r.next());
         setup(&outer, &token);
+        let mut churner = Churner::start(&outer, &token);
         let export = outer.join("export");
         let (verdict, trace, front) = if idx % 2 == 0 {
             let mut cfg = base_config(&export);
@@ -361,6 +411,7 @@ pub fn run(args: &Args, rep: &mut Report) {
             (v, t, if at_root { "vfs-root" } else { "vfs-sub" })
         };
         rep.count(&format!("histories:{}", front), 1);
+        rep.count("outside_file_open_close_cycles_of_the_second_thread", churner.finish());
         if let Some((sig, why)) = verdict {
             // with a sub-mount, ".." at the mount root legitimately leaves into the pseudo filesystem
             rep.violation(&sig, idx, J::obj(vec![("why", J::s(why)), ("front", J::s(front)), ("history_tail", J::A(trace.iter().rev().take(30).rev().map(J::s).collect()))]));
